@@ -15,6 +15,28 @@ EXTRA = {
  "C02": "(The stack overflow of clone/drop/display on ~1 MiB deeply nested collections is already known: do not change that behaviour either way.)",
  "C20": "(Enable with --features serde.)",
 }
+DONE = {
+"C01": "streaming single-buffer encoder + flat parser stack; name-sorted attribute order + PartialEq derives + reworded error texts",
+"C02": "length-checked cursor decoder; reworded errors + RFC 3380 value tags + from_bytes constructors",
+"C03": "single-buffer encoder; name-sorted output + sorted_attributes()",
+"C04": "coalesced name+length reads; new ValueTag variants + messages + PartialEq + group get()",
+"C05": "one 8-byte header read, 1 KiB capped reads; reworded messages + getters + logging",
+"C06": "read_array/read_vec helpers; position()/get_ref() + Debug impls + messages",
+"C07": "read-fully loop over read(); position counter, io_error_kind(), From<IppParseError> for io::Error, reworded Display",
+"C08": "private MessageReader struct; IppPayload::from_bytes + From impls + with_payload/into_parts",
+"C09": "rank sort of the operation group; sorted tail + Hold/Release/Restart-Job operations",
+"C10": "shared with_header/job_attrs helpers; Validate-Job operation + CreateJob::set_user_name + add_attributes",
+"C11": "64 KiB upload blocks + 16 KiB BufReader; Accept: application/ipp + http_headers()/user_agent() + reworded RequestError",
+"C12": "ServerAuth enum + helpers; ca_certs() + PEM bundles + logging",
+"C13": "string-built canonical URI; ipps scheme for TLS targets + is_secure_uri() + printer_uri()",
+"C14": "table-driven mapping; public transport_url() + case-insensitive scheme match",
+"C15": "buffer take-over instead of copies; opt-in max collection depth + messages + accessors",
+"C16": "binary-search status decode; 16 operations + 31 finishings + 7 status codes added",
+"C17": "single group lookup, no Vec<String>; public printer_state()/blocking_state_reasons() + reworded errors",
+"C18": "64 KiB document buffer + option helper; requested-attributes in the state query + reason line on stderr",
+"C19": "cursor-enum iterator; insert/get/len + Extend/FromIterator + exact size_hint + FusedIterator",
+"C20": "hand-written serde impls for the message; name-sorted JSON + serde/PartialEq derives on more types",
+}
 os.makedirs(ROOT, exist_ok=True)
 here = os.path.dirname(os.path.dirname(os.path.abspath(__file__)))
 for l in open(os.path.join(here, "properties.jsonl")):
@@ -27,7 +49,10 @@ for l in open(os.path.join(here, "properties.jsonl")):
 
 The file {d}/PROPERTY.json contains ONE semantic property the library satisfies. Read it (statement AND quantifier), then the sources it refers to. {EXTRA.get(pid, "")}
 
+A first round already produced these two changes for this property - do NOT repeat them or close variations: {DONE.get(pid, "")}.
+
 Task: produce TWO different, realistic, NON-TRIVIAL code changes to the library sources (ipp/ or util/) in the code this property is about that KEEP THE PROPERTY TRUE for every input / configuration / schedule in its quantifier - changes a maintainer could well make and that an over-strict or brittle checker of this property might nevertheless flag or choke on:
+  (This time prefer changes that touch OTHER aspects than the first round: different default values where the property leaves them open, different but permitted choices of representation, dependency-API usage, concurrency/ownership structure such as Arc/Mutex/OnceCell caches that are correctly invalidated, feature-gated code, behaviour OUTSIDE the property's quantifier - e.g. stricter or laxer handling of inputs the property does not cover.)
   1. an internal change: a behaviour-preserving refactoring, a different algorithm or data structure, different buffering / read sizes / allocation strategy, a performance improvement, reordered but equivalent steps, different (but still correct and equally specific) internal bookkeeping;
   2. an outward-visible but property-compatible change: an ADDITION to the public API (new enum variant, new public function or builder option, new trait impl, extended code table with correct values from the relevant registry, additional accepted inputs outside the property's domain), different error MESSAGES (same error kinds), different but equally valid output where the property leaves a choice (e.g. order of attributes the property does not constrain, equivalent header spellings), logging, documentation-driven renames of private items.
 Neither change may break ANY clause of the property, the existing public API (additions only), or the existing tests. Be careful and conservative about correctness: re-read the statement after each change and argue clause by clause that it still holds; if in doubt, choose a safer change.
